@@ -75,6 +75,11 @@ fn cases(tier: Tier) -> Vec<Case> {
                         if dup == 3 && n > 3 {
                             continue;
                         }
+                        // quick: the two duplicate-delivery patterns for trees of up to 2 blocks only
+                        // (thorough keeps them for every labelled tree)
+                        if !tier.is_thorough() && (dup == 1 || dup == 2) && n > 2 {
+                            continue;
+                        }
                         out.push(Case { pv: pv.clone(), bad, perm: perm.clone(), dup });
                     }
                 }
@@ -643,6 +648,16 @@ pub fn run(ctx: &Ctx) -> Report {
     report.max_counter("max_universe_blocks", u.valid.len() as u64);
     report.max_counter("max_cases_total", all.len() as u64);
     let only = std::env::var("VERIF_C01_ONLY").ok();
+    // the small families first (thread schedules, family M, family D), then the tree sweep
+    if report.machinery_errors.is_empty() && report.cap_hit.is_none() && std::env::var("VERIF_C01_ONLY").map(|v| v != "A" && v != "D").unwrap_or(true) {
+        run_sched(ctx, &mut u, &mut report, None, None);
+    }
+    if report.machinery_errors.is_empty() && report.cap_hit.is_none() && only.as_deref().map(|o| o == "M").unwrap_or(true) {
+        run_family_m(ctx, &mut report, None);
+    }
+    if report.machinery_errors.is_empty() && report.cap_hit.is_none() && only.as_deref().map(|o| o == "D").unwrap_or(true) {
+        run_dyn(ctx, &mut report, None);
+    }
     for (idx, case) in all.iter().enumerate() {
         if only.as_deref().map(|o| o != "A").unwrap_or(false) {
             break;
@@ -662,17 +677,8 @@ pub fn run(ctx: &Ctx) -> Report {
             }
         }
     }
-    if report.machinery_errors.is_empty() && report.cap_hit.is_none() && std::env::var("VERIF_C01_ONLY").map(|v| v != "A" && v != "D").unwrap_or(true) {
-        run_sched(ctx, &mut u, &mut report, None, None);
-    }
     report.count("forge_audits", u.audited);
     drop(u);
-    if report.machinery_errors.is_empty() && report.cap_hit.is_none() && only.as_deref().map(|o| o == "M").unwrap_or(true) {
-        run_family_m(ctx, &mut report, None);
-    }
-    if report.machinery_errors.is_empty() && report.cap_hit.is_none() && only.as_deref().map(|o| o == "D").unwrap_or(true) {
-        run_dyn(ctx, &mut report, None);
-    }
     report
 }
 
@@ -1066,6 +1072,7 @@ fn run_sched_case(ctx: &Ctx, u: &mut TreeUniverse, sc: &SchedCase, case_idx: u64
     if root_is_mine {
         local.evaluations += 1;
         local.count("family_S_cases", 1);
+        local.sample(json!({"family": "S", "case": sc, "schedules_explored_by_this_shard": stats.schedules, "scheduling_points_in_the_longest_schedule": stats.max_points, "distinct_end_states": ends.len()}));
     }
     local.count("family_S_schedules", stats.schedules - if root_is_mine { 0 } else { 1 });
     local.max_counter("max_family_S_points_per_schedule", stats.max_points as u64);
